@@ -278,17 +278,18 @@ def run_queries(ctx, rng, count):
 def run(ctx):
     rng = ctx.rng
     quick = ctx.tier == "quick"
+    mid = getattr(ctx, "escalated", False)      # quick tier on changed sources: between the two sizes
     trans = []
-    t1, s1 = bfs(["a", "a", "b"], ctx, 4 if quick else 6, 400 if quick else 5000)
+    t1, s1 = bfs(["a", "a", "b"], ctx, 4 if quick else 5 if mid else 6, 400 if quick else 1500 if mid else 5000)
     trans += [("bfs3", ["a", "a", "b"]) + x for x in t1]
     if not quick:
-        t2, s2 = bfs(["a", "a", "b", "a"], ctx, 4, 3000)
+        t2, s2 = bfs(["a", "a", "b", "a"], ctx, 3 if mid else 4, 800 if mid else 3000)
         trans += [("bfs4", ["a", "a", "b", "a"]) + x for x in t2]
     else:
         t2, s2 = bfs(["a", "b", "a", "a"], ctx, 2, 60)
         trans += [("bfs4", ["a", "b", "a", "a"]) + x for x in t2]
     names10 = ["a", "b", "a", "c", "a", "b", "a", "a", "c", "b"]
-    for _ in range(20 if quick else 400):
+    for _ in range(20 if quick else 80 if mid else 400):
         trans += [("random", names10) + x for x in random_history(names10, rng, 120 if quick else 200)]
     fails, diffs, samples = [], [], []
     reqs = []
@@ -305,7 +306,7 @@ def run(ctx):
             mstate = last["state"]
             if mret != ret or mstate["kids"] != after["kids"] or mstate["parent"] != after["parent"]:
                 diffs.append({"case": {"names": names, "history": hist, "op": op}, "impl": {"ret": ret, "state": after}, "model": last})
-    qf, qd, qn = run_queries(ctx, rng, 300 if quick else 5000)
+    qf, qd, qn = run_queries(ctx, rng, 300 if quick else 2000 if mid else 5000)
     fails += qf; diffs += qd
     kinds = {}
     for t in trans:
